@@ -164,12 +164,26 @@ package layer4
 // hand-off by returning errHijacked.
 //@ func (h Handler) Handle(cx *Connection) (err error)
 //@ requires cx != nil && cx.Conn != nil
+//@ requires[C01] wfcx(cx) && wf(cx) && !cx.matching
+//@ callsback
+//@ ensures cx.Conn != nil
+//@ ensures err != errHijacked ==> escaped(old(arr(cx.buf))) == old(escaped(arr(cx.buf)))
+//@ ensures inpool(old(arr(cx.buf))) == old(inpool(arr(cx.buf)))
+
+// HandlerFunc adapts a function to the Handler interface: every such value is assumed to obey the
+// interface contract (the router's own closures are verified against it).
+//@ func (h HandlerFunc) Handle(cx *Connection) (err error)
+//@ requires cx != nil && cx.Conn != nil
+//@ requires[C01] wfcx(cx) && wf(cx) && !cx.matching
+//@ callsback
 //@ ensures cx.Conn != nil
 //@ ensures err != errHijacked ==> escaped(old(arr(cx.buf))) == old(escaped(arr(cx.buf)))
 //@ ensures inpool(old(arr(cx.buf))) == old(inpool(arr(cx.buf)))
 
 //@ func (h NextHandler) Handle(cx *Connection, next Handler) (err error)
 //@ requires cx != nil && cx.Conn != nil && next != nil
+//@ requires[C01] wfcx(cx) && wf(cx) && !cx.matching
+//@ callsback
 //@ ensures cx.Conn != nil
 //@ ensures err != errHijacked ==> escaped(old(arr(cx.buf))) == old(escaped(arr(cx.buf)))
 //@ ensures inpool(old(arr(cx.buf))) == old(inpool(arr(cx.buf)))
@@ -197,3 +211,39 @@ package layer4
 //@ requires[inv] isnil(ctxval(conn.Context, VarsCtxKey).(map[string]any)["tls_connection_states"]) || istype(ctxval(conn.Context, VarsCtxKey).(map[string]any)["tls_connection_states"], []*tls.ConnectionState)
 //@ safety C13
 //@ ensures[C13] err == errHijacked
+
+// ---------------------------------------------------------------------------------- the router
+// A middleware only builds the next handler (it runs nothing).
+//@ func (m Middleware) call(next Handler) Handler
+//@ assigns nothing
+//@ ensures result != nil
+
+//@ pred validroutes(routes RouteList) = forall r int :: 0 <= r && r < len(routes) ==> routes[r] != nil && validsets(routes[r].matcherSets) && validmw(routes[r].middleware)
+//@ pred validmw(mw []Middleware) = forall t int :: 0 <= t && t < len(mw) ==> !isnil(mw[t])
+
+// lastHandler: what the last handler of a route passes on becomes the connection the following
+// routes are matched on, and the route is thereby known not to be terminal. Its precondition is the
+// handler interface's (the handlers of the chain must establish it: C01).
+//@ func (routes RouteList) Compile$1$1(conn *Connection) (err error)
+//@ requires wfcx(conn) && wf(conn) && !conn.matching
+//@ safety C02
+
+// The compiled route list. Obligations (C02, C05), as assertions at the call sites:
+//  - a route's handlers run only on a match of this pass, with the matching deadline cleared;
+//  - prefetch runs only with the deadline armed;
+//  - the fallback runs with the deadline cleared (the first `next.Handle` is reached either after
+//    the last route matched, where the deadline was cleared at the match, or with no route at all).
+//@ func (routes RouteList) Compile$1(cx *Connection) (err error)
+//@ requires wfcx(cx) && wf(cx) && !cx.matching && !isnil(next) && logger != nil
+//@ requires[inv] validroutes(routes)
+//@ safety C02 C05
+//@ invariant wfcx(cx) && wf(cx) && !cx.matching
+//@ invariant lastMatchedRouteIdx >= -1 && lastMatchedRouteIdx < len(routes) && lastNeedsMoreIdx >= -1
+//@ invariant !isnil(handler)
+//@ invariant validroutes(routes)
+//@ loop 2 invariant !armed(cx.Conn) && isTerminal
+//@ atcall[C05] prefetch 1 armed(cx.Conn)
+//@ atcall[C02,C05] Handle 1 matched && !armed(cx.Conn)
+//@ atcall[C05] Handle 2 lastMatchedRouteIdx >= 0 || !armed(cx.Conn)
+//@ atcall[C02] AnyMatch 1 i > lastMatchedRouteIdx
+//@ atcall[C05] Handle 3 !armed(cx.Conn)
